@@ -7,6 +7,7 @@ TRUSTED_BASE = [
     'Coq 8.16.1 kernel (coqc; coqchk in the thorough tier); vm_compute for computed obligations; no native_compute',
     'no axioms declared by the development (grep for Axiom/Parameter/Admitted/... is part of every check)',
     'extraction: ExtrOcamlBasic only (Extract Inductive bool/option/unit/list/prod/sumbool, Extract Inlined Constant andb/orb); nat/N/Z/positive stay inductive; OCaml 4.13.1; ocaml/*.ml driver',
+    'build machinery: coq_makefile + make (full .vo), bin/vosync.py (each .vo tied by sha256 to the text of its .v, rebuilt otherwise), model stamp over sources and loaded .vo',
     'correspondence harness (Go, /verif/harness) and its generators: differential testing, bounded by generator coverage',
     'Go runtime, net, bufio, gorilla/websocket, redigo, grpc, serf: modelled or used as is, not verified',
 ]
